@@ -92,4 +92,15 @@ Definition wf_op (o : op) : bool :=
   | _ => true
   end.
 
+(* restarting-speaker deferral of a family is started while the family holds no
+   route (daemon/src/event/mod.rs starts it at boot, before any session) *)
+Definition fam_empty (s : st) (f : N) : Prop := forall p, fst p = f -> d_l (s_get s p) = [].
+Definition op_ok (s : st) (o : op) : Prop :=
+  match o with StartDef f => fam_empty s f | _ => True end.
+Fixpoint run_ok (v : variant) (s : st) (ops : list op) : Prop :=
+  match ops with
+  | [] => True
+  | o :: t => op_ok s o /\ run_ok v (fst (step c v s o)) t
+  end.
+
 End Spec.
